@@ -749,6 +749,18 @@ func runC02(r *Run) {
 	} else {
 		r.Bad("R16", "anchor/Keeper.GetAccount", "", "not found")
 	}
+	r.Rule("R17", "PATH.destruction-clears-the-coins-on-every-path: SELFDESTRUCT has paid the contract's balance to the beneficiary inside the EVM; the keeper's DeleteAccount is what takes the coins away from the destroyed address in the bank. Every return of DeleteAccount that is not a failure follows SetBalance(addr, 0) — also the early return for an address that has no auth account (a contract created onto a coin-holding address and destroyed in the same transaction never gets one): otherwise the coins exist twice, and with a CREATE2 factory as often as the factory is called")
+	if da, ok := P.FnOK("(*x/evm/keeper.Keeper).DeleteAccount"); ok {
+		isClear := isCallMatching(func(ci CallInfo) bool { return ci.Name == "SetBalance" })
+		w := PathQuery{Fn: da, Block: isClear, Target: func(in ssa.Instruction) bool {
+			ret, ok := in.(*ssa.Return)
+			return ok && classifyExit(ret) == ExitSuccess
+		}}.Search()
+		r.Check(w == nil, "R17", fnID(da)+"#clears-the-balance-on-every-success-path", P.Pos(fnPos(da)), "every success return follows SetBalance",
+			"DeleteAccount can return success without clearing the destroyed address's bank balance", P.witness(w)...)
+	} else {
+		r.Bad("R17", "anchor/DeleteAccount", "", "not found")
+	}
 	r.Rule("R15", "PATH.absence-is-asked-afresh: precompiles create accounts behind the StateDB's back (a bank credit to a fresh withdraw address, a new validator's pool share), so 'this address has no account' is a fact about the SDK state that the StateDB may not remember: getStateObject answers nil only on a path on which this very invocation asked the keeper (GetAccount) — with a remembered absence, value sent to the address later in the transaction goes through CreateAccount with balance 0 and Commit overwrites what the precompile credited")
 	if gso, ok := P.FnOK("(*x/evm/statedb.StateDB).getStateObject"); ok {
 		isAsk := isCallMatching(func(ci CallInfo) bool { return ci.Name == "GetAccount" && ci.Invoke })
